@@ -404,6 +404,7 @@ fn check_payloads(scan: &Scan, st: &mut Stats, ctx: &dyn Fn() -> Value) {
 // ---------------------------------------------------------------------------------------------
 
 fn hist_case(case: u64, rng: &mut Rng, st: &mut Stats, n_commits: usize, mid_replays: usize) {
+    set_case("hist", case);
     let r = vcore::run::block_on(hist_case_async(case, rng, st, n_commits, mid_replays));
     if let Err(e) = r {
         st.inconclusive(format!("C18: harness trouble: {e}"));
@@ -676,6 +677,7 @@ fn main() {
     run.assume("all reads run as the system Principal (current authorization applies to historical reads by specification)");
     let t = run.tier;
     run.parallel("hist", t.pick(40, 1200), 0.9, |c, rng, st| hist_case(c, rng, st, t.pick(18, 28), t.pick(1, 3)));
+    drain_reports(&mut run);
     run.floor("history_commits", 120);
     run.floor("battery_recorded", 6000);
     run.floor("replayed:SEQ", 10000);
